@@ -210,6 +210,23 @@ def identity_map(o, ops=()):
     return out
 
 
+def leaf_positions(p, ops=()):
+    """ops -> leaf for every leaf of a plain structure."""
+    if p[0] == "V":
+        return {ops: p[1]}
+    out = {}
+    if p[0] == "T":
+        for k, ch in p[2].items():
+            out.update(leaf_positions(ch, ops + (("attribute", k),)))
+    elif p[0] == "L":
+        for i, ch in enumerate(p[1]):
+            out.update(leaf_positions(ch, ops + (("index", i),)))
+    else:
+        for k, ch in p[1].items():
+            out.update(leaf_positions(ch, ops + (("key", k),)))
+    return out
+
+
 def eq_sym(a, b):
     if isinstance(a, SymNum) and isinstance(b, SymNum):
         return a.t == b.t
@@ -277,8 +294,28 @@ def _run_update(c, name, key, t, targets, vs, nv, kind, create):
         cl.append(identity_map(obj) == st["before_ids"])  # original: same containers in the same places
         return cl
 
+    def norm(ops, pl):
+        return tuple((kd, (len(_get(pl, ops[:i])[1]) + nm) if kd == "index" and nm < 0 else nm) for i, (kd, nm) in enumerate(ops))
+
+    def selector_map(res):
+        """second, selector-level statement of 'only the addressed path changed' (kind 'leaf'): every numeric leaf position
+        q of the original that still exists in the result holds  If(selector addresses q, new value, old leaf)  -- one
+        formula over the *symbolic* selector, resolved by the solver through the path condition."""
+        if kind != "leaf" or exc_free_targets is None:
+            return []
+        before, after = leaf_positions(state["before_plain"]), leaf_positions(plain(res))
+        cl = []
+        for q, old in before.items():
+            if q in after and isinstance(old, SymNum) and isinstance(after[q], SymNum):
+                hit = [j for j, tj in enumerate(exc_free_targets) if tj == q]
+                cond = z3.Or(*[sel.t == j for j in hit]) if hit else z3.BoolVal(False)
+                cl.append(after[q].t == z3.If(cond, nv[0].t, old.t))
+        return cl
+
+    exc_free_targets = None if create else [norm(tg, plain(build(t, list(range(N_LEAVES))))) for tg in targets]
+
     def post(res, exc):
-        return _conj(verdict(res, exc, eq_sym, state))
+        return _conj(verdict(res, exc, eq_sym, state) + (selector_map(res) if exc is None else []))
 
     def replay(m):
         cv = [model_value(m, x.t) for x in vs]
